@@ -334,8 +334,17 @@ def streams(rng, tier):
         bops += [f"de f32 fa{b:08x}", f"de f64 fa{b:08x}"]
     for b in f64_patterns(rng, tier):
         bops += [f"de f64 fb{b:016x}", f"de f32 fb{b:016x}"]
+    for b in [0x7fc00000, 0xffc00000, 0x7f800001, 0x7fc00001, 0x7f800000, 0xff800000, 0x80000000, 0x3fc00000, 1] + [rng.getrandbits(32) for _ in range(30)]:
+        bops.append(f"rt f32 f32:{b:08x}")
+    for b in [0x7ff8000000000000, 0xfff8000000000000, 0x7ff0000000000001, 0x7ff0000000000000, 0xfff0000000000000, 1 << 63, 0x3ff8000000000000, 1] + [rng.getrandbits(64) for _ in range(30)]:
+        bops.append(f"rt f64 f64:{b:016x}")
     def judge_bridge(op, impl, model, spec):
         w = op.split(" ")
+        if w[0] == "rt":
+            # written at the width of the type, bit for bit, and read back the same
+            bits = w[2].split(":")[1]
+            exp = ("fa" if w[1] == "f32" else "fb") + bits
+            return "ok" if impl == f"{exp} ok {w[2]} {len(exp) // 2}" and impl == model else ("violation" if impl != f"{exp} ok {w[2]} {len(exp) // 2}" else "corr")
         want, item = w[1], w[2]
         width = {"f9": 16, "fa": 32, "fb": 64}[item[:2]]
         bits = int(item[2:], 16)
